@@ -26,7 +26,7 @@ def expectedPins : List (String × String) := [
   ("fmp4PickLeadingTrack", "1c8fec0d014713f9"),
   ("findFirstPartTrackOfLeadingTrack", "2bb7fd75aa060dbc"),
   ("findTimeScaleOfLeadingTrack", "85f8749fc2e183db"),
-  ("clientStreamProcessorFMP4.processSegment", "5a26127ffe25d210"),
+  ("clientStreamProcessorFMP4.processSegment", "6e831d6096110be3"),
   ("clientStreamProcessorFMP4.joinTrackProcessors", "9b67fbf57153c1f7"),
   ("clientStreamProcessorFMP4.onPartTrackProcessed", "79fdd0fea3e6310b"),
   ("clientStreamProcessorFMP4.initializeTrackProcessors", "75c37fc75a806c4b"),
@@ -85,7 +85,8 @@ theorem c13_rejections_present :
     leading stream that reaches its end without ever having defined the time origin ends with an error instead of leaving
     the other streams waiting for it (`c13_guards_present` needs the latter: without it the model wedges, see the example). -/
 theorem c13_f15_repair_present :
-    genFlags.skipsEmptySegments = true ∧ genFlags.skipsEmptyLeadingToo = true ∧ genFlags.leadingEndNeedsOrigin = true := by
+    genFlags.skipsEmptySegments = true ∧ genFlags.skipsEmptyLeadingToo = true ∧ genFlags.leadingEndNeedsOrigin = true ∧
+    genFlags.skipNeedsFragment = true := by
   decide
 
 /-- Coverage of the type switches over EVERY implementation of `fmp4.Codec` in mediacommon: a kind `FromFMP4`
@@ -401,9 +402,11 @@ theorem c13_no_leading_data_fmp4 (F : Flags) (hg : F.noLeadingDataFMP4 = true) (
     (`hl`: the code that exists skips on every stream; a rendition-only variant of the guard is covered too.) -/
 theorem c13_empty_segment_skipped (F : Flags) (hf : F.skipsEmptySegments = true) (elapsed : Int) (s : FStream)
     (hl : F.skipsEmptyLeadingToo = true ∨ s.isLeading = false) (c : ClientSt) (dateTime : Option Int) (parts : Parts)
+    (hne : parts ≠ [])
     (hno : ∀ pt ∈ parts.flatten, pt.id ≠ s.leadingTrackID) (hempty : ∀ pt ∈ parts.flatten, pt.samples = []) :
     fmp4ProcessSegment F elapsed s c dateTime (some parts) = .ok (s, c, [.skippedSegment]) := by
   unfold fmp4ProcessSegment
+  have hnp : parts.isEmpty = false := by cases parts <;> simp_all
   have : findFirstPT parts s.leadingTrackID = none := by
     apply List.find?_eq_none.mpr
     intro pt hpt
@@ -413,28 +416,47 @@ theorem c13_empty_segment_skipped (F : Flags) (hf : F.skipsEmptySegments = true)
     intro pt hpt
     simp [hempty pt hpt]
   cases hl with
-  | inl h => simp [this, hf, h, he]
-  | inr h => simp [this, hf, h, he]
+  | inl h => simp [this, hf, h, he, hnp]
+  | inr h => simp [this, hf, h, he, hnp]
 
-/-- … hence, for a segment without leading-track data: error ⇔ some part-track has a sample; skipped ⇔ none has. -/
-theorem c13_no_leading_data_iff (F : Flags) (hg : F.noLeadingDataFMP4 = true) (hf : F.skipsEmptySegments = true) (elapsed : Int)
+/-- A body without any fragment (no `moof` at all: an empty 200 answer, bytes of another container) is NOT such a segment: it is
+    the fatal error "could not find data of leading track" on every stream — skipping it would let the client continue with a
+    hole in the stream (C09 "without gaps"). -/
+theorem c13_empty_body_is_error (F : Flags) (hg : F.noLeadingDataFMP4 = true) (hfrag : F.skipNeedsFragment = true) (elapsed : Int)
+    (s : FStream) (c : ClientSt) (dateTime : Option Int) :
+    fmp4ProcessSegment F elapsed s c dateTime (some []) = .error .noLeadingData := by
+  simp [fmp4ProcessSegment, findFirstPT, hg, hfrag]
+
+/-- … hence, for a segment without leading-track data: skipped ⇔ it has a fragment and no part-track has a sample; error otherwise. -/
+theorem c13_no_leading_data_iff (F : Flags) (hg : F.noLeadingDataFMP4 = true) (hf : F.skipsEmptySegments = true)
+    (hfrag : F.skipNeedsFragment = true) (elapsed : Int)
     (s : FStream) (hl : F.skipsEmptyLeadingToo = true ∨ s.isLeading = false) (c : ClientSt) (dateTime : Option Int) (parts : Parts)
     (hno : ∀ pt ∈ parts.flatten, pt.id ≠ s.leadingTrackID) :
-    (fmp4ProcessSegment F elapsed s c dateTime (some parts) = .error .noLeadingData ↔ ∃ pt ∈ parts.flatten, pt.samples ≠ []) ∧
-    (fmp4ProcessSegment F elapsed s c dateTime (some parts) = .ok (s, c, [.skippedSegment]) ↔ ∀ pt ∈ parts.flatten, pt.samples = []) := by
-  by_cases h : ∃ pt ∈ parts.flatten, pt.samples ≠ []
-  · have e := c13_no_leading_data_fmp4 F hg elapsed s c dateTime parts hno h
-    refine ⟨⟨fun _ => h, fun _ => e⟩, ⟨fun h2 => ?_, fun h2 => ?_⟩⟩
-    · rw [e] at h2; cases h2
-    · obtain ⟨pt, hpt, hne⟩ := h; exact absurd (h2 pt hpt) hne
-  · have hall : ∀ pt ∈ parts.flatten, pt.samples = [] := by
-      intro pt hpt
-      by_cases hs' : pt.samples = []
-      · exact hs'
-      · exact absurd ⟨pt, hpt, hs'⟩ h
-    have e := c13_empty_segment_skipped F hf elapsed s hl c dateTime parts hno hall
-    refine ⟨⟨fun h2 => ?_, fun h2 => absurd h2 h⟩, ⟨fun _ => hall, fun _ => e⟩⟩
+    (fmp4ProcessSegment F elapsed s c dateTime (some parts) = .error .noLeadingData ↔
+      (parts = [] ∨ ∃ pt ∈ parts.flatten, pt.samples ≠ [])) ∧
+    (fmp4ProcessSegment F elapsed s c dateTime (some parts) = .ok (s, c, [.skippedSegment]) ↔
+      (parts ≠ [] ∧ ∀ pt ∈ parts.flatten, pt.samples = [])) := by
+  by_cases hnil : parts = []
+  · subst hnil
+    have e := c13_empty_body_is_error F hg hfrag elapsed s c dateTime
+    refine ⟨⟨fun _ => Or.inl rfl, fun _ => e⟩, ⟨fun h2 => ?_, fun h2 => absurd rfl h2.1⟩⟩
     rw [e] at h2; cases h2
+  · by_cases h : ∃ pt ∈ parts.flatten, pt.samples ≠ []
+    · have e := c13_no_leading_data_fmp4 F hg elapsed s c dateTime parts hno h
+      refine ⟨⟨fun _ => Or.inr h, fun _ => e⟩, ⟨fun h2 => ?_, fun h2 => ?_⟩⟩
+      · rw [e] at h2; cases h2
+      · obtain ⟨pt, hpt, hne⟩ := h; exact absurd (h2.2 pt hpt) hne
+    · have hall : ∀ pt ∈ parts.flatten, pt.samples = [] := by
+        intro pt hpt
+        by_cases hs' : pt.samples = []
+        · exact hs'
+        · exact absurd ⟨pt, hpt, hs'⟩ h
+      have e := c13_empty_segment_skipped F hf elapsed s hl c dateTime parts hnil hno hall
+      refine ⟨⟨fun h2 => ?_, fun h2 => ?_⟩, ⟨fun _ => ⟨hnil, hall⟩, fun _ => e⟩⟩
+      · rw [e] at h2; cases h2
+      · cases h2 with
+        | inl h3 => exact absurd h3 hnil
+        | inr h3 => exact absurd h3 h
 
 /-- A leading fMP4 stream of which every segment was skipped (it never created its track processors, so it never defined the
     time origin) does not end normally: reaching the end of the stream is the error the missing leading-track data would
@@ -527,6 +549,9 @@ example : (match clientRun genFlags 0 (.multi true (some true)) [{ f15Lead with 
     client does: Wait() never yields) … -/
 example : clientRun { genFlags with leadingEndNeedsOrigin := false } 0 (.multi true (some true))
     [{ f15Lead with files := [.parts [[]], .parts [[]], .parts [[]]] }, f15Rend] = .wedge := by decide
+/-- … a body without any fragment (an empty 200 answer) is not skipped: fatal error, on a rendition as on the leading stream … -/
+example : (match clientRun genFlags 0 (.multi true (some true)) [f15Lead, { f15Rend with files := [.parts []] }] with
+    | .error .noLeadingData _ => true | _ => false) = true := by decide
 /-- … and so is a rendition segment that has samples, but of another track only. -/
 example : (match clientRun genFlags 0 (.multi true (some true))
     [f15Lead, { f15Rend with files := [.parts [[{ id := 5, baseTime := 0, samples := [{ dur := 1, off := 0, pid := 7 }] }]]] }] with
